@@ -266,6 +266,19 @@ static void family_scanc(std::vector<hm::Scenario>& out, unsigned oracles, bool 
                 add(out, fam, *sh, {{scans[si]}, {w}}, oracles, quick, 2, 3);
             }
         }
+        // a scan of the empty gap between two adjacent stored keys (the node contributes no tuple but must be recorded with the version
+        // that was validated) racing the insert of a key into that gap
+        if (with_nv && init.size() >= 2) {
+            std::vector<std::string> ks(init.begin(), init.end());
+            std::set<std::size_t> picks = {0, ks.size() / 2 - (ks.size() > 2 ? 0 : 1), ks.size() - 2};
+            for (std::size_t i : picks) {
+                if (i + 1 >= ks.size()) continue;
+                std::string g = ks[i] + "5";
+                if (init.count(g) != 0 || !(g < ks[i + 1])) continue;
+                bool q = quick_shapes.count(sn) != 0 && i != ks.size() - 2;
+                add(out, fam, *sh, {{mkscan(ks[i], scan_endpoint::EXCLUSIVE, ks[i + 1], scan_endpoint::EXCLUSIVE, 0, false, true)}, {mk(UPUT, g, 2)}}, oracles, q, 2, 3);
+            }
+        }
         // a narrow scan whose in-range keys are all removed while it runs, followed by an insert of an out-of-range key into the same
         // node (which forces the scan to re-read the node): the node must still be in the version set afterwards, because a later
         // insert into the (now empty) covered range lands in it (probed at the end of every execution)
